@@ -62,6 +62,12 @@ def runOpCore (s : DState) (name : String) (args : List SExp) : String :=
           | .ok c, .ok e => toString ((c == 0) == e)
           | _, _ => "panic"
         s!"model={m} spec=true"
+      -- the curried form agrees with the binary form (one function in the model; two emitted functions in Go)
+      | "cmpcb", [x, y] =>
+        let m := match CompareM.top env T x y with
+          | .ok _ => "true"
+          | _ => "panic"
+        s!"model={m} spec=true"
       | "hash", [x] => s!"model={showResU (HashM.top env T x)}"
       | "hashf", [x] => s!"model={showResU (HashM.field env T x)}"
       -- Equal ⇒ same hash, on the emitted functions / on the models
